@@ -33,7 +33,24 @@ var shapeLongElection = [][2]int{
 	{1, 83}, {2, 84}, {3, 85}, {0, 86}, {1, 87}, {2, 88},
 }
 
-var shapeCorpus = map[string][][2]int{"long-election": shapeLongElection}
+// shapeStragglerRound: seven validators with very uneven activity; the fame of
+// the last witness of an early round is settled later than that of the others
+// while events seen by the early famous witnesses only are still waiting to be
+// received. (7 validators, 108 events.)
+var shapeStragglerRound = [][2]int{
+	{0, -1}, {1, -1}, {2, -1}, {3, -1}, {4, -1}, {5, -1}, {6, -1}, {6, 0}, {0, 4}, {5, 2}, {6, 9}, {1, 3},
+	{2, 8}, {6, 4}, {0, 12}, {2, 9}, {3, 14}, {4, 15}, {0, 15}, {6, 15}, {5, 19}, {0, 15}, {6, 21}, {2, 20},
+	{1, 16}, {0, 23}, {4, 23}, {6, 25}, {3, 23}, {2, 25}, {0, 27}, {2, 30}, {6, 31}, {1, 20}, {0, 20}, {6, 31},
+	{2, 34}, {1, 36}, {0, 26}, {4, 20}, {6, 38}, {2, 38}, {1, 20}, {3, 40}, {0, 39}, {6, 39}, {2, 20}, {4, 45},
+	{6, 47}, {1, 20}, {5, 46}, {0, 50}, {5, 47}, {2, 47}, {0, 52}, {2, 48}, {2, 43}, {0, 56}, {0, 56}, {4, 58},
+	{3, 59}, {4, 56}, {4, 49}, {0, 49}, {2, 60}, {4, 52}, {3, 48}, {6, 65}, {5, 63}, {0, 64}, {2, 68}, {2, 67},
+	{3, 69}, {1, 69}, {5, 71}, {5, 67}, {0, 65}, {4, 67}, {2, 76}, {5, 72}, {6, 76}, {0, 73}, {2, 80}, {5, 81},
+	{4, 80}, {4, 83}, {5, 80}, {0, 82}, {6, 82}, {6, 73}, {5, 82}, {2, 89}, {2, 89}, {1, 72}, {0, 89}, {5, 89},
+	{0, 95}, {2, 96}, {4, 97}, {0, 95}, {2, 89}, {0, 98}, {2, 89}, {6, 102}, {0, 103}, {6, 102}, {2, 95}, {3, 105},
+}
+
+var shapeCorpus = map[string][][2]int{"long-election": shapeLongElection, "straggler-round": shapeStragglerRound}
+var shapeCreators = map[string]int{"long-election": 4, "straggler-round": 7}
 
 func genDagFromShape(rng *rand.Rand, seed int64, shape [][2]int, n int) *Dag {
 	d := &Dag{N: n, ByHash: map[string]*DagEvent{}, Liars: map[int]bool{}}
@@ -96,6 +113,30 @@ func (d *Dag) ancestryFirst(z int) []*DagEvent {
 	}
 	for _, e := range d.Events {
 		if !in[e.Hash] {
+			out = append(out, e)
+		}
+	}
+	return out
+}
+
+// descendantsLast returns the order "everything that does not descend from
+// event z (in creation order), then z and its descendants": one piece of news
+// reaches the node late.
+func (d *Dag) descendantsLast(z int) []*DagEvent {
+	desc := map[string]bool{d.Events[z].Hash: true}
+	for _, e := range d.Events[z+1:] {
+		if desc[e.Parents[0]] || desc[e.Parents[1]] {
+			desc[e.Hash] = true
+		}
+	}
+	out := []*DagEvent{}
+	for _, e := range d.Events {
+		if !desc[e.Hash] {
+			out = append(out, e)
+		}
+	}
+	for _, e := range d.Events {
+		if desc[e.Hash] {
 			out = append(out, e)
 		}
 	}
